@@ -1,9 +1,11 @@
 import SctpVerif.Model.Receiver
 import SctpVerif.Proofs.ReasmTotal
 /-!
-Frame lemmas for the receive-half model: what each handler does to the configuration, to the receive queue
-and to the stream objects; and the lifting principle "a property of reassembly queues that `new` establishes
-and every queue operation keeps holds for every stream object of every reachable association state".
+Lifting principle for the receive-half model: a property of reassembly queues that `new` establishes and every
+queue operation keeps holds for every stream object (registered or already deleted from the table) of every
+reachable association state. The property may be GRADED by a budget of user bytes: the budget grows by the
+payload length of each DATA chunk a step may store — this is how the exactness of the per-stream byte counter
+(`Reasm.CInv`, which needs the total below 2^63) is carried along association runs.
 -/
 namespace Receiver
 open Gen
@@ -15,8 +17,31 @@ structure QPres (P : Reasm.Q → Prop) : Prop where
   new : ∀ si me, P (Reasm.new si me)
   step : ∀ q op, P q → P (q.step op)
 
+/-- a GRADED property of reassembly queues: the grade is a budget of user bytes that grows by the bytes an
+operation may add (`Reasm.Op.bytes`: the payload length of a `push`, 0 otherwise) -/
+structure GPres (P : Nat → Reasm.Q → Prop) : Prop where
+  new : ∀ si me, P 0 (Reasm.new si me)
+  mono : ∀ b b' q, b ≤ b' → P b q → P b' q
+  step : ∀ b q op, P b q → P (b + op.bytes) (q.step op)
+
+theorem QPres.graded {P : Reasm.Q → Prop} (h : QPres P) : GPres (fun _ => P) :=
+  ⟨h.new, fun _ _ _ _ hp => hp, fun _ q op hp => h.step q op hp⟩
+
+/-- user bytes a chunk / an op may add to the reassembly queues -/
+def chunkBytes : InChunk → Nat
+  | .data c _ => c.len
+  | _ => 0
+
+def opBytes : Op → Nat
+  | .pkt cs => (cs.map chunkBytes).sum
+  | _ => 0
+
 /-- `P` holds for the queue of every stream object, registered or not -/
 def AllQ (P : Reasm.Q → Prop) (s : St) : Prop := (∀ x ∈ s.streams, P x.q) ∧ (∀ x ∈ s.gone, P x.q)
+
+theorem AllQ.mono {P : Nat → Reasm.Q → Prop} (hP : GPres P) {b b' : Nat} {s : St} (hb : b ≤ b') (h : AllQ (P b) s) :
+    AllQ (P b') s :=
+  ⟨fun x hx => hP.mono _ _ _ hb (h.1 x hx), fun x hx => hP.mono _ _ _ hb (h.2 x hx)⟩
 
 theorem mem_setQ {l : List Stream} {si : BitVec 16} {f : Reasm.Q → Reasm.Q} {x' : Stream} (h : x' ∈ setQ l si f) :
     ∃ x ∈ l, x' = x ∨ x' = { x with q := f x.q } := by
@@ -53,8 +78,8 @@ theorem createStream_cases (s : St) (si : BitVec 16) (accept : Bool) :
     · left; exact ⟨rfl, rfl⟩
   · right; exact ⟨_, rfl, rfl, rfl, rfl, rfl, rfl, rfl⟩
 
-theorem createStream_allQ {P : Reasm.Q → Prop} (hP : QPres P) {s : St} (h : AllQ P s) (si : BitVec 16) (accept : Bool) :
-    AllQ P (createStream s si accept).1 := by
+theorem createStream_allQ_g {P : Nat → Reasm.Q → Prop} (hP : GPres P) {b : Nat} {s : St} (h : AllQ (P b) s)
+    (si : BitVec 16) (accept : Bool) : AllQ (P b) (createStream s si accept).1 := by
   rcases createStream_cases s si accept with ⟨e, _⟩ | ⟨strm, hq, _, _, hs, hg, _, _⟩
   · rw [e]; exact h
   · refine ⟨?_, by rw [hg]; exact h.2⟩
@@ -63,14 +88,14 @@ theorem createStream_allQ {P : Reasm.Q → Prop} (hP : QPres P) {s : St} (h : Al
     simp only [List.mem_append, List.mem_singleton] at hx
     rcases hx with hx | rfl
     · exact h.1 x hx
-    · rw [hq]; exact hP.new _ _
+    · rw [hq]; exact hP.mono 0 b _ (Nat.zero_le _) (hP.new _ _)
 
-theorem getOrCreateStream_allQ {P : Reasm.Q → Prop} (hP : QPres P) {s : St} (h : AllQ P s) (si : BitVec 16) (accept : Bool) :
-    AllQ P (getOrCreateStream s si accept).1 := by
+theorem getOrCreateStream_allQ_g {P : Nat → Reasm.Q → Prop} (hP : GPres P) {b : Nat} {s : St} (h : AllQ (P b) s)
+    (si : BitVec 16) (accept : Bool) : AllQ (P b) (getOrCreateStream s si accept).1 := by
   unfold getOrCreateStream
   split
   · exact h
-  · exact createStream_allQ hP h si accept
+  · exact createStream_allQ_g hP h si accept
 
 /-! ### resets -/
 
@@ -91,9 +116,6 @@ theorem foldl_unregister_allQ {P : Reasm.Q → Prop} (ids : List (BitVec 16)) {s
   induction ids generalizing s with
   | nil => exact h
   | cons id ids ih => exact ih (unregister_allQ h id)
-
-theorem rememberPerformed_streams (s : St) (rsn : BitVec 32) :
-    (rememberPerformed s rsn).streams = s.streams ∧ (rememberPerformed s rsn).gone = s.gone := ⟨rfl, rfl⟩
 
 theorem resetStreamsIfAny_allQ {P : Reasm.Q → Prop} {s : St} (h : AllQ P s) (r : ResetReq) : AllQ P (resetStreamsIfAny s r) := by
   unfold resetStreamsIfAny
@@ -138,48 +160,50 @@ theorem ackStep_allQ {P : Reasm.Q → Prop} {s : St} (h : AllQ P s) (b : Bool) :
 
 /-! ### DATA -/
 
-theorem pushToStream_allQ {P : Reasm.Q → Prop} (hP : QPres P) {s : St} (h : AllQ P s) (c : Reasm.Chunk) :
-    AllQ P (pushToStream s c).1 := by
+theorem pushToStream_allQ_g {P : Nat → Reasm.Q → Prop} (hP : GPres P) {b : Nat} {s : St} (h : AllQ (P b) s)
+    (c : Reasm.Chunk) : AllQ (P (b + c.len)) (pushToStream s c).1 := by
+  have hm := AllQ.mono hP (Nat.le_add_right b c.len) h
   unfold pushToStream
   dsimp only
   split
-  · exact h
+  · exact hm
   · rename_i x hx
     have hx' := (getS_mem hx).1
-    have hq : P (x.q.pushWithError c).1 := hP.step x.q (.push c) (h.1 x hx')
-    have hs : ∀ y ∈ setQ s.streams c.si (fun _ => (x.q.pushWithError c).1), P y.q := by
+    have hq : P (b + c.len) (x.q.pushWithError c).1 := hP.step b x.q (.push c) (h.1 x hx')
+    have hs : ∀ y ∈ setQ s.streams c.si (fun _ => (x.q.pushWithError c).1), P (b + c.len) y.q := by
       intro y hy
       obtain ⟨z, hz, rfl | rfl⟩ := mem_setQ hy
-      · exact h.1 _ hz
+      · exact hm.1 _ hz
       · exact hq
-    split <;> exact ⟨hs, h.2⟩
+    split <;> exact ⟨hs, hm.2⟩
 
-theorem acceptPayloadData_allQ {P : Reasm.Q → Prop} (hP : QPres P) {s : St} (h : AllQ P s) (c : Reasm.Chunk) :
-    AllQ P (acceptPayloadData s c).1 := by
+theorem acceptPayloadData_allQ_g {P : Nat → Reasm.Q → Prop} (hP : GPres P) {b : Nat} {s : St} (h : AllQ (P b) s)
+    (c : Reasm.Chunk) : AllQ (P (b + c.len)) (acceptPayloadData s c).1 := by
   unfold acceptPayloadData
-  have hg := getOrCreateStream_allQ hP h c.si true
+  have hg := getOrCreateStream_allQ_g hP h c.si true
   split
-  · rename_i s' heq; rw [heq] at hg; exact hg
+  · rename_i s' heq; rw [heq] at hg; exact AllQ.mono hP (Nat.le_add_right _ _) hg
   · rename_i s' x heq
     rw [heq] at hg
     split
-    · exact pushToStream_allQ hP hg c
+    · exact pushToStream_allQ_g hP hg c
     · dsimp only
       split
-      · exact hg
-      · exact pushToStream_allQ hP hg c
+      · exact AllQ.mono hP (Nat.le_add_right _ _) hg
+      · exact pushToStream_allQ_g hP hg c
 
-theorem handleData_allQ {P : Reasm.Q → Prop} (hP : QPres P) {s : St} (h : AllQ P s) (c : Reasm.Chunk) (imm : Bool) :
-    AllQ P (handleData s c imm) := by
+theorem handleData_allQ_g {P : Nat → Reasm.Q → Prop} (hP : GPres P) {b : Nat} {s : St} (h : AllQ (P b) s)
+    (c : Reasm.Chunk) (imm : Bool) : AllQ (P (b + c.len)) (handleData s c imm) := by
+  have hm := AllQ.mono hP (Nat.le_add_right b c.len) h
   unfold handleData
   dsimp only
   split
-  · exact h
+  · exact hm
   · split
-    · exact h
+    · exact hm
     · by_cases hcp : RecvQ.canPush s.pq c.tsn = true
       · simp only [if_pos hcp]
-        have hr := acceptPayloadData_allQ hP h c
+        have hr := acceptPayloadData_allQ_g hP h c
         split
         · split
           · exact ackStep_allQ hr _
@@ -188,20 +212,20 @@ theorem handleData_allQ {P : Reasm.Q → Prop} (hP : QPres P) {s : St} (h : AllQ
       · simp only [if_neg hcp]
         split
         · split
-          · exact ackStep_allQ h _
-          · exact h
-        · exact ackStep_allQ h _
+          · exact ackStep_allQ hm _
+          · exact hm
+        · exact ackStep_allQ hm _
 
 /-! ### FORWARD-TSN -/
 
-theorem fwdEntry_allQ {P : Reasm.Q → Prop} (hP : QPres P) {s : St} (h : AllQ P s) (e : BitVec 16 × BitVec 16) :
-    AllQ P (fwdEntry s e) := by
+theorem fwdEntry_allQ_g {P : Nat → Reasm.Q → Prop} (hP : GPres P) {b : Nat} {s : St} (h : AllQ (P b) s)
+    (e : BitVec 16 × BitVec 16) : AllQ (P b) (fwdEntry s e) := by
   unfold fwdEntry
   dsimp only
-  have hc := createStream_allQ hP h e.1 true
-  have key : ∀ s' : St, AllQ P s' →
-      AllQ P { s' with streams := setQ s'.streams e.1 (fun q => q.forwardTSNForOrdered e.2) } := fun s' h' =>
-    ⟨allQ_setQ (f := fun q => q.forwardTSNForOrdered e.2) h'.1 (fun q hq => hP.step q (.fwdO e.2) hq), h'.2⟩
+  have hc := createStream_allQ_g hP h e.1 true
+  have key : ∀ s' : St, AllQ (P b) s' →
+      AllQ (P b) { s' with streams := setQ s'.streams e.1 (fun q => q.forwardTSNForOrdered e.2) } := fun s' h' =>
+    ⟨allQ_setQ (f := fun q => q.forwardTSNForOrdered e.2) h'.1 (fun q hq => hP.step b q (.fwdO e.2) hq), h'.2⟩
   split
   · split
     · exact key _ h
@@ -210,14 +234,14 @@ theorem fwdEntry_allQ {P : Reasm.Q → Prop} (hP : QPres P) {s : St} (h : AllQ P
     · exact key _ hc
     · exact hc
 
-theorem foldl_fwdEntry_allQ {P : Reasm.Q → Prop} (hP : QPres P) (es : List (BitVec 16 × BitVec 16)) {s : St} (h : AllQ P s) :
-    AllQ P (es.foldl fwdEntry s) := by
+theorem foldl_fwdEntry_allQ_g {P : Nat → Reasm.Q → Prop} (hP : GPres P) {b : Nat} (es : List (BitVec 16 × BitVec 16))
+    {s : St} (h : AllQ (P b) s) : AllQ (P b) (es.foldl fwdEntry s) := by
   induction es generalizing s with
   | nil => exact h
-  | cons e es ih => exact ih (fwdEntry_allQ hP h e)
+  | cons e es ih => exact ih (fwdEntry_allQ_g hP h e)
 
-theorem handleFwd_allQ {P : Reasm.Q → Prop} (hP : QPres P) {s : St} (h : AllQ P s) (c : TSN) (es : List (BitVec 16 × BitVec 16)) :
-    AllQ P (handleFwd s c es) := by
+theorem handleFwd_allQ_g {P : Nat → Reasm.Q → Prop} (hP : GPres P) {b : Nat} {s : St} (h : AllQ (P b) s) (c : TSN)
+    (es : List (BitVec 16 × BitVec 16)) : AllQ (P b) (handleFwd s c es) := by
   unfold handleFwd
   split
   · exact h
@@ -226,27 +250,27 @@ theorem handleFwd_allQ {P : Reasm.Q → Prop} (hP : QPres P) {s : St} (h : AllQ 
     · split
       · exact h
       · apply ackStep_allQ
-        have h1 := foldl_fwdEntry_allQ hP es (s := { s with pq := RecvQ.advance s.pq c }) h
+        have h1 := foldl_fwdEntry_allQ_g hP es (s := { s with pq := RecvQ.advance s.pq c }) h
         refine ⟨?_, h1.2⟩
         intro x hx
         simp only [List.mem_map] at hx
         obtain ⟨y, hy, rfl⟩ := hx
-        exact hP.step y.q (.fwdU c) (h1.1 y hy)
+        exact hP.step b y.q (.fwdU c) (h1.1 y hy)
 
-theorem ifwdEntry_allQ {P : Reasm.Q → Prop} (hP : QPres P) {s : St} (h : AllQ P s) (e : BitVec 16 × Bool × BitVec 32) :
-    AllQ P (ifwdEntry s e) := by
+theorem ifwdEntry_allQ_g {P : Nat → Reasm.Q → Prop} (hP : GPres P) {b : Nat} {s : St} (h : AllQ (P b) s)
+    (e : BitVec 16 × Bool × BitVec 32) : AllQ (P b) (ifwdEntry s e) := by
   unfold ifwdEntry
   dsimp only
-  have hc := createStream_allQ hP h e.1 true
-  have key : ∀ s' : St, AllQ P s' →
-      AllQ P { s' with streams := setQ s'.streams e.1 (fun q =>
+  have hc := createStream_allQ_g hP h e.1 true
+  have key : ∀ s' : St, AllQ (P b) s' →
+      AllQ (P b) { s' with streams := setQ s'.streams e.1 (fun q =>
         if e.2.1 then q.forwardTSNForUnorderedMID e.2.2 else q.forwardTSNForOrderedMID e.2.2) } := fun s' h' =>
     ⟨allQ_setQ (f := fun q => if e.2.1 then q.forwardTSNForUnorderedMID e.2.2 else q.forwardTSNForOrderedMID e.2.2) h'.1
       (fun q hq => by
-        show P (if e.2.1 then q.forwardTSNForUnorderedMID e.2.2 else q.forwardTSNForOrderedMID e.2.2)
+        show P b (if e.2.1 then q.forwardTSNForUnorderedMID e.2.2 else q.forwardTSNForOrderedMID e.2.2)
         split
-        · exact hP.step q (.fwdUM e.2.2) hq
-        · exact hP.step q (.fwdOM e.2.2) hq), h'.2⟩
+        · exact hP.step b q (.fwdUM e.2.2) hq
+        · exact hP.step b q (.fwdOM e.2.2) hq), h'.2⟩
   split
   · split
     · exact key _ h
@@ -255,52 +279,63 @@ theorem ifwdEntry_allQ {P : Reasm.Q → Prop} (hP : QPres P) {s : St} (h : AllQ 
     · exact key _ hc
     · exact hc
 
-theorem foldl_ifwdEntry_allQ {P : Reasm.Q → Prop} (hP : QPres P) (es : List (BitVec 16 × Bool × BitVec 32)) {s : St}
-    (h : AllQ P s) : AllQ P (es.foldl ifwdEntry s) := by
+theorem foldl_ifwdEntry_allQ_g {P : Nat → Reasm.Q → Prop} (hP : GPres P) {b : Nat}
+    (es : List (BitVec 16 × Bool × BitVec 32)) {s : St} (h : AllQ (P b) s) : AllQ (P b) (es.foldl ifwdEntry s) := by
   induction es generalizing s with
   | nil => exact h
-  | cons e es ih => exact ih (ifwdEntry_allQ hP h e)
+  | cons e es ih => exact ih (ifwdEntry_allQ_g hP h e)
 
-theorem handleIFwd_allQ {P : Reasm.Q → Prop} (hP : QPres P) {s : St} (h : AllQ P s) (c : TSN)
-    (es : List (BitVec 16 × Bool × BitVec 32)) : AllQ P (handleIFwd s c es) := by
+theorem handleIFwd_allQ_g {P : Nat → Reasm.Q → Prop} (hP : GPres P) {b : Nat} {s : St} (h : AllQ (P b) s) (c : TSN)
+    (es : List (BitVec 16 × Bool × BitVec 32)) : AllQ (P b) (handleIFwd s c es) := by
   unfold handleIFwd
   split
   · exact h
   · split
     · exact h
-    · exact ackStep_allQ (foldl_ifwdEntry_allQ hP es (s := { s with pq := RecvQ.advance s.pq c }) h) _
+    · exact ackStep_allQ (foldl_ifwdEntry_allQ_g hP es (s := { s with pq := RecvQ.advance s.pq c }) h) _
 
 /-! ### packets, application, writer, clock -/
 
-theorem handleChunk_allQ {P : Reasm.Q → Prop} (hP : QPres P) {s : St} (h : AllQ P s) (c : InChunk) : AllQ P (handleChunk s c) := by
+theorem handleChunk_allQ_g {P : Nat → Reasm.Q → Prop} (hP : GPres P) {b : Nat} {s : St} (h : AllQ (P b) s) (c : InChunk) :
+    AllQ (P (b + chunkBytes c)) (handleChunk s c) := by
   cases c with
-  | data d imm => simp only [handleChunk]; split; exact h; exact handleData_allQ hP h d imm
-  | fwd t es => exact handleFwd_allQ hP h t es
-  | ifwd t es => exact handleIFwd_allQ hP h t es
+  | data d imm =>
+    simp only [handleChunk, chunkBytes]
+    split
+    · exact AllQ.mono hP (Nat.le_add_right _ _) h
+    · exact handleData_allQ_g hP h d imm
+  | fwd t es => exact handleFwd_allQ_g hP h t es
+  | ifwd t es => exact handleIFwd_allQ_g hP h t es
   | hb info => exact h
   | reset r => exact handleResetReq_allQ h r
 
-theorem foldl_handleChunk_allQ {P : Reasm.Q → Prop} (hP : QPres P) (cs : List InChunk) {s : St} (h : AllQ P s) :
-    AllQ P (cs.foldl handleChunk s) := by
-  induction cs generalizing s with
+theorem foldl_handleChunk_allQ_g {P : Nat → Reasm.Q → Prop} (hP : GPres P) (cs : List InChunk) {b : Nat} {s : St}
+    (h : AllQ (P b) s) : AllQ (P (b + (cs.map chunkBytes).sum)) (cs.foldl handleChunk s) := by
+  induction cs generalizing b s with
   | nil => exact h
-  | cons c cs ih => exact ih (handleChunk_allQ hP h c)
+  | cons c cs ih =>
+    have := ih (handleChunk_allQ_g hP h c)
+    simp only [List.map_cons, List.sum_cons, List.foldl_cons]
+    rw [← Nat.add_assoc]; exact this
 
 theorem chunksEnd_allQ {P : Reasm.Q → Prop} {s : St} (h : AllQ P s) : AllQ P (chunksEnd s) := by
   unfold chunksEnd; split; exact h; split <;> exact h
 
-theorem packet_allQ {P : Reasm.Q → Prop} (hP : QPres P) {s : St} (h : AllQ P s) (cs : List InChunk) : AllQ P (packet s cs) :=
-  chunksEnd_allQ (foldl_handleChunk_allQ hP cs (s := chunksStart s) h)
+theorem packet_allQ_g {P : Nat → Reasm.Q → Prop} (hP : GPres P) {b : Nat} {s : St} (h : AllQ (P b) s) (cs : List InChunk) :
+    AllQ (P (b + (cs.map chunkBytes).sum)) (packet s cs) :=
+  chunksEnd_allQ (foldl_handleChunk_allQ_g hP cs (s := chunksStart s) h)
 
-theorem readStream_q {P : Reasm.Q → Prop} (hP : QPres P) (x : Stream) (n : Nat) (h : P x.q) : P (readStream x n).1.q := by
+theorem readStream_q {P : Nat → Reasm.Q → Prop} (hP : GPres P) {b : Nat} (x : Stream) (n : Nat) (h : P b x.q) :
+    P b (readStream x n).1.q := by
   unfold readStream
   dsimp only
   split
-  · exact hP.step x.q (.read n) h
+  · exact hP.step b x.q (.read n) h
   · exact h
   · exact h
 
-theorem read_allQ {P : Reasm.Q → Prop} (hP : QPres P) {s : St} (h : AllQ P s) (nm : Name) (n : Nat) : AllQ P (read s nm n).1 := by
+theorem read_allQ_g {P : Nat → Reasm.Q → Prop} (hP : GPres P) {b : Nat} {s : St} (h : AllQ (P b) s) (nm : Name) (n : Nat) :
+    AllQ (P b) (read s nm n).1 := by
   unfold read
   split
   · rename_i x hx
@@ -327,9 +362,7 @@ theorem gather_allQ {P : Reasm.Q → Prop} {s : St} (h : AllQ P s) : AllQ P (gat
   split
   · exact h
   · dsimp only
-    split
-    · split <;> (try split) <;> exact h
-    · split <;> (try split) <;> exact h
+    split <;> exact h
 
 theorem tick_allQ {P : Reasm.Q → Prop} {s : St} (h : AllQ P s) (d : Nat) : AllQ P (tick s d) := by
   unfold tick
@@ -340,33 +373,58 @@ theorem tick_allQ {P : Reasm.Q → Prop} {s : St} (h : AllQ P s) (d : Nat) : All
     · exact h
   · exact h
 
-theorem openStream_allQ {P : Reasm.Q → Prop} (hP : QPres P) {s : St} (h : AllQ P s) (si : BitVec 16) : AllQ P (openStream s si).1 := by
+theorem openStream_allQ_g {P : Nat → Reasm.Q → Prop} (hP : GPres P) {b : Nat} {s : St} (h : AllQ (P b) s) (si : BitVec 16) :
+    AllQ (P b) (openStream s si).1 := by
   unfold openStream
   split
   · exact h
-  · exact getOrCreateStream_allQ hP h si false
+  · exact getOrCreateStream_allQ_g hP h si false
 
 theorem accept_allQ {P : Reasm.Q → Prop} {s : St} (h : AllQ P s) : AllQ P (accept s).1 := by
   unfold accept; split <;> exact h
 
-/-- ✱ lifting: a queue property established by `new` and kept by every queue operation holds for every stream
-object after any association step -/
-theorem step_allQ {P : Reasm.Q → Prop} (hP : QPres P) {s : St} (h : AllQ P s) (op : Op) : AllQ P (step s op) := by
+/-- ✱ graded lifting: after any association step every stream object's queue satisfies the property at the budget
+increased by the user bytes of the DATA chunks of the step -/
+theorem step_allQ_g {P : Nat → Reasm.Q → Prop} (hP : GPres P) {b : Nat} {s : St} (h : AllQ (P b) s) (op : Op) :
+    AllQ (P (b + opBytes op)) (step s op) := by
   cases op with
-  | pkt cs => exact packet_allQ hP h cs
-  | read n b => exact read_allQ hP h n b
+  | pkt cs => exact packet_allQ_g hP h cs
+  | read n k => exact read_allQ_g hP h n k
   | accept => exact accept_allQ h
-  | «open» si => exact openStream_allQ hP h si
+  | «open» si => exact openStream_allQ_g hP h si
   | gather => exact gather_allQ h
   | tick d => exact tick_allQ h d
   | setState st => exact h
 
-theorem run_allQ {P : Reasm.Q → Prop} (hP : QPres P) (ops : List Op) {s : St} (h : AllQ P s) : AllQ P (run s ops) := by
-  induction ops generalizing s with
+theorem run_allQ_g {P : Nat → Reasm.Q → Prop} (hP : GPres P) (ops : List Op) {b : Nat} {s : St} (h : AllQ (P b) s) :
+    AllQ (P (b + (ops.map opBytes).sum)) (run s ops) := by
+  induction ops generalizing b s with
   | nil => exact h
-  | cons op ops ih => exact ih (step_allQ hP h op)
+  | cons op ops ih =>
+    have := ih (step_allQ_g hP h op)
+    simp only [List.map_cons, List.sum_cons, run, List.foldl_cons]
+    rw [← Nat.add_assoc]; exact this
 
 theorem init_allQ (P : Reasm.Q → Prop) (a b : BitVec 32) (c d e : Bool) (f : Int) (t : TSN) : AllQ P (init a b c d e f t) :=
   ⟨by intro x hx; simp [init] at hx, by intro x hx; simp [init] at hx⟩
+
+/-! ### ungraded corollaries -/
+
+theorem getOrCreateStream_allQ {P : Reasm.Q → Prop} (hP : QPres P) {s : St} (h : AllQ P s) (si : BitVec 16) (accept : Bool) :
+    AllQ P (getOrCreateStream s si accept).1 := getOrCreateStream_allQ_g (b := 0) hP.graded h si accept
+
+theorem handleChunk_allQ {P : Reasm.Q → Prop} (hP : QPres P) {s : St} (h : AllQ P s) (c : InChunk) : AllQ P (handleChunk s c) :=
+  handleChunk_allQ_g (b := 0) hP.graded h c
+
+theorem packet_allQ {P : Reasm.Q → Prop} (hP : QPres P) {s : St} (h : AllQ P s) (cs : List InChunk) : AllQ P (packet s cs) :=
+  packet_allQ_g (b := 0) hP.graded h cs
+
+/-- ✱ lifting: a queue property established by `new` and kept by every queue operation holds for every stream
+object after any association step -/
+theorem step_allQ {P : Reasm.Q → Prop} (hP : QPres P) {s : St} (h : AllQ P s) (op : Op) : AllQ P (step s op) :=
+  step_allQ_g (b := 0) hP.graded h op
+
+theorem run_allQ {P : Reasm.Q → Prop} (hP : QPres P) (ops : List Op) {s : St} (h : AllQ P s) : AllQ P (run s ops) :=
+  run_allQ_g (b := 0) hP.graded ops h
 
 end Receiver
